@@ -93,10 +93,14 @@ CHECKS = {
     text="The input-function classes are pure closed forms; their return expressions are extracted from the IR. Decided symbolically: the four Jacobian functions are the partial derivatives of the mapping for Circular, Shafranov and Czarny (12 identities); every gyro profile has alpha*beta == 1 and every other beta == 0; u_D and u_D_Interior equal the exact solution for all (problem, geometry) pairs; selectTestCase, interpreted for all 128 option combinations, throws or selects five classes whose name components equal the options with constructor arguments in the same roles. The source term of all 66 non-Culham classes is compared with -div(alpha grad u)+beta u formed symbolically from the extracted u, alpha, beta and mapping, at 50-digit precision at random points (relative 1e-7, because the shipped forms carry rounded constants): 63 agree, the three Poisson x Czarny classes do not and are recorded as known findings.",
     note="Trusted: clang front end, gmgir lowering, sympy diff/simplify/lambdify, mpmath. R-C19-5 is a numerical identity check on extracted closed forms, not a symbolic proof. Not decided: Culham (tabulated ODE solution, prescribed source term).",
     ref="DESIGN.md section 4 / C19"),
+ "C16": dict(
+    level="proof", technique="static analysis: symbolic interpretation of the sparse LU solver on matrices with independent symbolic entries over all small sparsity patterns, storage orders and hash-map iteration orders; A x == b decided by identity testing",
+    text="Decides the algebraic half only: the constructor, hash-map elimination with dynamic fill-in, conversion to CSR factors and both substitutions are interpreted from source in the exact rational-function domain, with the stored matrix entries independent symbols (so every matrix with that pattern admitting LU without pivoting is covered at once), for every pattern with a full diagonal up to dimension 3 (quick) / 4 (thorough) plus named larger patterns, with sorted/reversed/rotated storage order, explicitly stored zeros, two hash-map iteration orders, and two right-hand sides solved one after another with the same object; A x == b holds identically. Rounding accuracy, the absolute pivot threshold 1e-12 and iterator validity under rehashing are not decided.",
+    note="Trusted: clang front end, gmgir lowering, own interpreter incl. its model of std::unordered_map / std::vector, identity testing (error < 1e-17). Hypothesis: non-vanishing pivots. Exhaustive only up to dimension 4; the elimination's control flow depends on the pattern only.",
+    ref="DESIGN.md section 4 / C16"),
 }
 NA = {
  "C02": "order of accuracy is a limit statement about numerical error under refinement; no clause is visible in the shape of the code (its code-shaped preconditions are checked under C03/C10/C19)",
- "C16": "correctness of sparse elimination with fill-in over all patterns/values is an algorithmic-numerical statement; static analysis in reach offers only generic lint, which decides nothing about it",
 }
 PENDING = "check not built yet in this round (planned: see DESIGN.md section 4); not claimed until it runs"
 def main():
